@@ -69,6 +69,26 @@ class Report:
             self.violations.append(v)
         return v
 
+    def merge_rules(self, sub, prefixes):
+        """take over from a sub-report only the rules whose id starts with one of the prefixes"""
+        keep = lambda r: any(r == p or r.startswith(p + '.') for p in prefixes)
+        for r, n in sub.counts.items():
+            if keep(r):
+                self.counts[r] = self.counts.get(r, 0) + n
+                self.obligations += n
+        bad = {}
+        for v in sub.violations:
+            if keep(v.rule):
+                bad[v.rule] = bad.get(v.rule, 0) + 1
+                if not any(x.key == v.key for x in self.violations):
+                    self.violations.append(v)
+        self.discharged += sum(n for r, n in sub.counts.items() if keep(r)) - sum(bad.values())
+        self.nontrivial |= {x for x in sub.nontrivial if keep(x[0])}
+        self.samples += [x for x in sub.samples if keep(x.get('rule', ''))]
+        self.controls_hit |= {r for r in sub.controls_hit if keep(r)}
+        self.machinery_errors += sub.machinery_errors
+        self.notes += sub.notes
+
     def control(self, rule):
         self.controls_hit.add(rule)
 
